@@ -64,7 +64,18 @@ def _d1(chk, fb):
                 chk.refuted("D1", f.key, "inserting-read:%s[%s]" % (tab, key), f.loc(c),
                             "%s[%s] is read without an existence guard: for an absent %s the table silently gains a phantom entry (std::map::operator[] inserts) before anything raises" % (tab, key, "edge" if tab == "edgeStructure_" else "node"),
                             witness={"input": "an id that is not (or no longer) in the graph"})
-    chk.floor("D1", "value reads of the node/edge tables through operator[]", n, 1)
+    # the rule is about a hazard (operator[] inserts): a tree without any such read satisfies it.  What must not vanish is the
+    # anchor itself - look-ups of the two tables in the graph class, in whatever spelling
+    lookups = 0
+    for f in _graph_fns(fb):
+        if f.body is None:
+            continue
+        for c in f.calls():
+            if c["callee"]["name"] in ("operator[]", "find", "at", "count") and "obj" in c and render(f.obj(c)).replace("this.", "") in ("nodeStructure_", "edgeStructure_"):
+                lookups += 1
+    if n == 0:
+        chk.proved("D1", G, "no-inserting-read", "", "no value read of nodeStructure_/edgeStructure_ goes through operator[] (%d look-ups by find/at/count)" % lookups)
+    chk.floor("D1", "look-ups of the node/edge tables in the graph class", lookups, 10)
 
 
 def _guarded_calls(fb, f, name, depth=1):
@@ -188,8 +199,20 @@ def _d3(chk, fb):
         f = fb.q1(G + "::" + notify)
         loops = [x for x in walk(f.body) if x["k"] == "CXXForRangeStmt" and render(f.nodes[x["rangeinit"]]) == "observers_"]
         upd = [c for c in f.calls() if c["callee"]["name"] == ("deletedNodesUpdate" if "Nodes" in notify else "deletedEdgesUpdate")]
-        if loops and upd:
+        # other spellings of 'for every observer': an iterator loop from observers_.begin() to observers_.end(), or std::for_each /
+        # range algorithms over [observers_.begin(), observers_.end())
+        whole = bool(loops)
+        for lp in [x for x in walk(f.body) if x["k"] in ("ForStmt", "WhileStmt")]:
+            t = render(lp)
+            if "observers_.begin()" in t and ("observers_.end()" in t or any("observers_.end()" in render(i_) for i_ in local_inits(f).values())):
+                whole = True
+        for c in f.calls():
+            if c["callee"]["name"] in ("for_each", "for_each_n") and len(f.args(c)) >= 3 and render(f.args(c)[0]) == "observers_.begin()" and render(f.args(c)[1]) == "observers_.end()":
+                whole = True
+        if whole and upd:
             chk.proved("D3", f.key, "notification-reaches-all-observers", f.loc(), "loop over observers_ calling %s" % upd[0]["callee"]["name"])
+        elif upd:
+            chk.unknown("D3", f.key, "notification-reaches-all-observers", f.loc(), "%s is called, but the traversal of observers_ is not in a recognised form" % upd[0]["callee"]["name"])
         else:
             chk.refuted("D3", f.key, "notification-reaches-all-observers", f.loc(), "%s no longer forwards to every registered observer" % notify)
 
@@ -289,12 +312,23 @@ def _d5(chk, fb):
 def _writes_to(f, member):
     """(node, key text, value text) for  member[key] = value  /  member.at(key) = value"""
     out = []
+    # a slot bound to a reference local first ('Eref& slot = table.at(k); slot = object;') is a write of the slot
+    refs = {}
+    for dn in f.all_nodes():
+        if dn["k"] == "DeclStmt":
+            for d in dn["decls"]:
+                if d.get("init") is not None and (d.get("ty") or "").endswith("&") and not d["ty"].startswith("const "):
+                    i0 = strip(d["init"])
+                    if is_call(i0) and i0["callee"]["name"] in ("operator[]", "at") and "obj" in i0:
+                        refs[d["id"]] = i0
     for x in f.all_nodes():
         lhs = rhs = None
         if x["k"] == "BinaryOperator" and x["op"] == "=":
             lhs, rhs = strip(kids(x)[0]), kids(x)[1]
         elif is_call(x) and x["callee"]["name"] == "operator=" and "obj" in x and f.args(x):
             lhs, rhs = strip(f.obj(x)), f.args(x)[0]
+        if lhs is not None and lhs["k"] == "DeclRefExpr" and lhs["decl"]["id"] in refs:
+            lhs = refs[lhs["decl"]["id"]]
         if lhs is None or not is_call(lhs) or lhs["callee"]["name"] not in ("operator[]", "at") or "obj" not in lhs:
             continue
         if render(f.obj(lhs)).replace("this.", "") != member:
